@@ -207,7 +207,7 @@ pub fn run(ctx: &mut Ctx) {
     ctx.rule = "transaction record of kind {legacy without/with chain id, EIP-2930, EIP-1559 with/without accessList key}, numeric fields from the 256-bit boundary strategy, recipient absent/null/address, calldata lengths {0,1,2,31,32,55,56,57,255,256,uniform<=2000}, access lists of 0..4 entries x 0..4 slots with repeats, rendered to JSON with shuffled keys; key from the scalar strategy; signature = key.sign(signing_message()). Oracle: reference model (kind rule from keys, unsigned payload digest, signed payload bytes), strict canonical-RLP decode with field-by-field comparison, v/yParity formula, sender recovery over the reference digest. Non-trivial: not one of the four pinned near-empty transactions; distinct by (document, key).".into();
     ctx.assumptions = vec!["legacy chain ids are kept <= floor((2^256-37)/2) here; larger ones are C11's subject".into()];
     ctx.replay_known_and_regressions(&replay);
-    let n = ctx.tier.pick(8000, 300_000);
+    let n = ctx.tier.pick(60_000, 1_000_000);
     ctx.run_prop("encode", n, || crate::gen::tape(1200).prop_map(gen_case), judge);
     crate::fuzz::run_for(ctx);
     let total = ctx.cls.evaluations;
